@@ -98,6 +98,39 @@ Definition render (a : arg) : str :=
   | AManip _ => []
   end.
 
+(* ---------- the same under a global locale with digit grouping ----------
+   Every stream the library creates (operator%'s stringstream, make_string's) is default-constructed and so
+   carries the program's GLOBAL locale; numbers are then written with that locale's numpunct.  The driver
+   installs a numpunct with grouping "\3", thousands separator ',' and decimal point ';' for the `loc` cases;
+   this is what operator<< of libstdc++ produces with it for the number kinds used there (exercised only). *)
+Fixpoint group_rev (ds : str) (n : nat) : str :=     (* ds: least significant digit first; n digits since the last separator *)
+  match ds with
+  | [] => []
+  | d :: r => match n with
+              | 3 => x2c :: d :: group_rev r 1
+              | _ => d :: group_rev r (S n)
+              end
+  end.
+Definition group3 (digits : str) : str := rev (group_rev (rev digits) 0).
+Definition print_dec_grouped (z : Z) : str :=
+  match z with
+  | Zneg p => x2d :: group3 (print_dec (Zpos p))
+  | _ => group3 (print_dec z)
+  end.
+Definition print_half_grouped (z : Z) : str :=
+  if (0 <=? z)%Z then print_dec_grouped z ++ [x3b; x35]
+  else x2d :: print_dec_grouped (- z - 1)%Z ++ [x3b; x35].
+Definition render_loc (a : arg) : str :=
+  match a with
+  | AInt z => print_dec_grouped z
+  | ADbl z => print_dec_grouped z
+  | AHalf z => print_half_grouped z
+  | _ => render a
+  end.
+(* an argument with its text under that locale fixed: used to run the (locale-independent) formatter model
+   on a `loc` case *)
+Definition localize (a : arg) : arg := AStr (render_loc a).
+
 (* the arguments that leave the formatting state of the stream they are written to unchanged *)
 Definition stateless (a : arg) : bool :=
   match a with AStr _ | AInt _ | ADbl _ | ABool _ | AHalf _ => true | _ => false end.
